@@ -70,7 +70,7 @@ def run(facts, tier):
         "minimum arity plus the dominating arity test in eval_func_expr); R06-2 alternatives re-parsing a recursive "
         "non-terminal after a common prefix; R06-3 order-key delegation per node kind; R03-3 recursion cycles.")
     res.assumptions = [
-        "unwind edges ignored; RefCell borrow panics not claimed",
+        "unwind edges ignored; RefCell conflicts are claimed only where a live RefMut / Ref and the conflicting call are in one function (R06-6)",
         "termination of `while let` loops over parent / sibling chains is only covered through R06-3",
     ]
     roots = entries.c06(facts)
@@ -94,6 +94,8 @@ def run(facts, tier):
     import guards
     guards.rule(facts, res, "R06-4g", [facts.fns[x] for x in reach if x in facts.fns], want=("G1", "G2"), floor=1)
     r06_5(facts, res, reach)
+    import borrowck
+    borrowck.rule(facts, res, "R06-6", reach, floor=3)
     return res
 
 
